@@ -10,7 +10,10 @@ else MODE=""; fi
 trap 'git -C /repo reset -q --hard HEAD' EXIT
 git -C /repo apply $MODE "$patch" || { echo "PATCH CONFLICTS WITH CURRENT HEAD: $patch"; exit 3; }
 for id in "$@"; do
+  # the check rewrites evidence/<id>.json: a run against a CHANGED tree must never leave its evidence behind
+  cp -f evidence/$id.json /dev/shm/evidence-$id-$$.bak 2>/dev/null
   out=$(timeout 1500 ./check "$id" ${TIER:-quick} 2>&1); rc=$?
+  [ -f /dev/shm/evidence-$id-$$.bak ] && mv -f /dev/shm/evidence-$id-$$.bak evidence/$id.json
   nv=$(echo "$out" | grep -c "^VIOLATION")
   echo "[$id] exit=$rc violations=$nv :: $(echo "$out" | grep -A1 "^VIOLATION" | grep descriptor | head -3 | tr '\n' ' ' | cut -c1-300)"
 done
